@@ -26,7 +26,9 @@ BUDGET_S = {'quick': 150, 'thorough': 1500}
 
 SPECIAL_TOKS = ["it's", 'say "hi"', 'a\\b', 'tab\there', 'ünï', '東京', "'", '"', '\\', '//', '`', '{', '#x', '->', ' sp ']
 SPECIAL_PATS = [(' lead', [' lead']), ('a/b', ['a/b']), (r'\d+', ['12']), ('[\'"]', ["'", '"']), (r'x\/y', ['x/y']), ('(?i)ab', ['AB', 'ab']), (r'\w+\s', ['ab ']),
-                ('[^/]+/', ['q/']), ('"q"', ['"q"']), (r'\\', ['\\']), ('[a-c]+?', ['a'])]
+                ('[^/]+/', ['q/']), ('"q"', ['"q"']), (r'\\', ['\\']), ('[a-c]+?', ['a']),
+                # multi-line (verbose) patterns: the first line follows the opening slash, the others are indented
+                ('(?x)\n    [a-c]      # first\n    [a-c0-9]*  # rest\n    ', ['a1', 'abc']), ('(?x)\n  a+\n      b*\n', ['ab', 'a']), ('(?x) a\n   b', ['ab'])]
 CONSTS = ['7', 'k', "'s'", '2.5', 'a b', 'x{}y', "it's", 'None', 'True', 'two\nlines', 'a b\n  c d\ne']
 ALERTS = ['msg', 'bad thing here', 'x', 'two\nlines']
 DIRECTIVES = [
@@ -161,7 +163,11 @@ def decorate(rnd, rules):
                 d['kwparams'] = {'k': rnd.choice(['v', 3, 'a b'])}
         if rnd.random() < 0.12:
             d['decorators'] = rnd.choice([('nomemo',), ('name',), ('nostak',), ('nomemo', 'nostak'), ('name', 'nomemo'), ('nostak', 'name', 'nomemo')])
-    if len(rd) >= 2 and rnd.random() < 0.2:
+    if len(rd) >= 2 and rnd.random() < 0.12:
+        # @override: a later definition replaces the earlier one (the model keeps a single rule, printed without the decorator)
+        victim = rnd.choice(rd[1:])
+        rd.append(dict(name=victim['name'], exp=('seq', (('tok', 'b'), ('opt', ('tok', ',')))), decorators=('override',)))
+    elif len(rd) >= 2 and rnd.random() < 0.2:
         rd.insert(len(rd) - 1, dict(name='bs', exp=('seq', (('tok', 'b'), ('opt', ('tok', ','))))))
         rd[-1]['base'] = 'bs'
     directives = []
